@@ -21,6 +21,7 @@ from harness.envs.base import T_SWEEP_QUICK, T_SWEEP_THOROUGH, EnvAdapter
 
 DEFAULTS = dict(cube_size=3, time_limit=200, num_scrambles=100)   # documented constructor defaults
 INVERSE_AMOUNT = {0: 1, 1: 0, 2: 2}
+OPPOSITE = {0: 5, 5: 0, 1: 3, 3: 1, 2: 4, 4: 2}     # Face enum: UP, FRONT, RIGHT, BACK, LEFT, DOWN
 
 _CLS = {}
 
@@ -112,6 +113,9 @@ class Adapter(EnvAdapter):
                 # cube (every face of one colour) that differs from the reset cube
                 _scr("n2_t3_s0_rot", 2, 3, 0, 2, 5, ["rotate"]),
                 _scr("n4_t20_s0_rot", 4, 20, 0, 1, 7, ["rotate"], probe_every=4),
+                # half turns of two adjacent faces from the solved cube: four faces of one colour, two not
+                _scr("n3_t20_s0_half", 3, 20, 0, 8, 14, ["halfturns"], probe_every=3),
+                _scr("n4_t20_s0_half", 4, 20, 0, 4, 14, ["halfturns"], probe_every=6),
                 _scr("n4_t20_s7", 4, 20, 7, 3, 23, ["solve", "random", "random"], probe_every=5),
                 _scr("n5_t3_s100", 5, 3, 100, 4, 6, ["random"], probe_every=2),
             ]
@@ -134,6 +138,7 @@ class Adapter(EnvAdapter):
             out += [
                 _scr(f"n{n}_t1_s0", n, 1, 0, 6, 4, ["random"]),
                 _scr(f"n{n}_t20_s0_rot", n, 20, 0, 2, n + 3, ["rotate"]),
+                _scr(f"n{n}_t20_s0_half", n, 20, 0, 24 if n < 4 else 48, 14, ["halfturns"], probe_every=pe),
                 _scr(f"n{n}_t3_s1", n, 3, 1, 24, 6, mix),
                 _scr(f"n{n}_t20_s7", n, 20, 7, 16, 23, mix, probe_every=pe),
                 _scr(f"n{n}_t3_s100", n, 3, 100, 12, 6, ["random"], probe_every=pe),
@@ -214,6 +219,19 @@ class Adapter(EnvAdapter):
             plan = [[0, d, 0] for d in range(nd)] + [[5, d, 1] for d in reversed(range(nd))]
             if i < len(plan):
                 return np.asarray(plan[i], dtype=env.action_spec.dtype)
+            return self.random_actions(env, rng, 1)[0]
+        if policy == "halfturns":
+            # (a2 b2)^k from the solved cube for two adjacent faces a, b (and layers of any depth): after three rounds two
+            # pairs of edges are exchanged, which leaves FOUR faces of one colour and the two others not - "solved" must be
+            # decided on all six faces; after six rounds the cube is solved again
+            if i == 0:
+                nd = self._n // 2
+                a = int(rng.integers(6))
+                b = int(rng.choice([f for f in range(6) if f != a and f != OPPOSITE[a]]))
+                da, db = int(rng.integers(nd)), int(rng.integers(nd))
+                self._plan = [[a, da, 2], [b, db, 2]] * 6
+            if i < len(self._plan):
+                return np.asarray(self._plan[i], dtype=env.action_spec.dtype)
             return self.random_actions(env, rng, 1)[0]
         if policy != "solve":
             return self.random_actions(env, rng, 1)[0]
